@@ -26,6 +26,7 @@ Fixpoint papp (p q : prog) : prog :=
   | PIf c a r => PIf c a (papp r q)
   | PIfE c a eb r => PIfE c a eb (papp r q)
   | PWhile c a r => PWhile c a (papp r q)
+  | PExit off r => PExit off (papp r q)
   end.
 
 Definition for_init (v : nat) (lo : expr) : stmt := SSet (TLoc v) lo.
